@@ -165,7 +165,7 @@ lyd_parse(const struct ly_ctx *ctx, const struct lysc_ext_instance *ext, struct 
         }
     }
 
-    if (!(parse_opts & LYD_PARSE_ONLY)) {
+    if (!(parse_opts & LYD_PARSE_ONLY) && (!parent || parsed.count)) {
         if (ext) {
             /* special ext instance data validation */
             r = lyd_validate_ext(first_p, ext, val_opts, 0, &lydctx->node_when, &lydctx->node_types, &lydctx->meta_types,
